@@ -13,7 +13,7 @@ RULE = ("The host machine (call -> return(value | error); panic and process deat
         "Return. distinct_nontrivial = distinct source texts executed.")
 
 # (no astronomically large integer among the operand kinds: sizes of that magnitude are outside the guarantee)
-VARS = ["vi", "vz", "vneg", "vf", "vs", "ve", "vb", "vn", "vl", "vel", "vll", "vm", "vc", "vg", "vfn", "vfv", "vmo", "vp", "vnp", "vst", "vtl", "vtm", "vcc", "vsi", "vsf", "vtmi", "vtmf", "vtls", "vnilm", "vnill", "vps", "vnilp", "vtlp", "vnl"]
+VARS = ["vi", "vz", "vneg", "vf", "vs", "ve", "vb", "vn", "vl", "vel", "vll", "vm", "vc", "vg", "vfn", "vfv", "vmo", "vp", "vnp", "vst", "vtl", "vtm", "vcc", "vsi", "vsf", "vtmi", "vtmf", "vtls", "vnilm", "vnill", "vps", "vnilp", "vtlp", "vnl", "vtfp", "vcp"]
 
 T2 = []
 def t2(i, pre, mid, post): T2.append({"id": i, "pre": pre, "mid": mid, "post": post})
@@ -32,9 +32,11 @@ t2("forin-map-del", 'm = {"a": 1, "b": 2, "c": 3}\nfor k, v in m {\n delete(m, "
 t2("forin-map-del-use", 'm = {"a": 1, "b": 2, "c": 3}\nr = ', '\nfor k, v in m {\n delete(m, "a")\n delete(m, "b")\n delete(m, "c")\n r += v\n r = r ', ' v\n}')
 t2("forin-slice-shrink", 'l = [1, 2, 3]\nfor v in l {\n l = l[0:1]\n x = [v, ', ', ', ']\n}')
 t2("forin-over-del", 'for k, v in ', ' {\n delete(', ', k)\n x = [k, v]\n}')
+t2("elem0-assign", "", "[0] = ", ""); t2("forin-single", "for v in ", " {\n x = [v, ", "]\n break\n}")
 t2("make-type", "make(type X, ", ")\nmake(X)\n", ""); t2("spread-fv", "vfv(", ", ", "...)"); t2("fn-arg-go", "vg(", ") + vg(", ")"); t2("addr-deref", "*(&", ") + ", "")
 
-DEGENERATE = ['m = {"a": 1, "b": 2, "c": 3}\nfor k, v in m {\n delete(m, "a")\n delete(m, "b")\n delete(m, "c")\n x = [v]\n}', 'm = {"a": 1, "b": 2}\nfor k, v in m {\n m = {}\n x = {"z": v}\n}',
+DEGENERATE = ["ga3([1, 2, 3, 4])", "ga3([1])", "ga3([])", "ga3(vl)", "ga3(vll)", "ga3([1, 2, 3, 4, 5, 6, 7, 8, 9])", "vtfp[0] = vtlp[0]", "vtfp[0] = vnilp", "gpf(vnilp)", "gpf(vtlp[0])", "vtfp += vtlp",
+              "for v in vcp {\n x = [v]\n break\n}", "c = make(chan *int64, 1)\nc <- nil\nclose(c)\nr = []\nfor v in c {\n r += v\n}\nr", 'm = {"a": 1, "b": 2, "c": 3}\nfor k, v in m {\n delete(m, "a")\n delete(m, "b")\n delete(m, "c")\n x = [v]\n}', 'm = {"a": 1, "b": 2}\nfor k, v in m {\n m = {}\n x = {"z": v}\n}',
               'm = {"a": 1, "b": 2, "c": 3}\nf = func(x) { return x }\nfor k, v in m {\n delete(m, "a")\n delete(m, "b")\n delete(m, "c")\n f(v)\n}', "vtmi.x = \"a\"", "vtmi.x", "vtmf.x = true", "vnilm.k = 1", "vnilm[\"k\"] = 1", "vnill[0] = 1", "vnill += 1",
               "var a =", "var a, b =", "a, b =", "= 1", "return", "return ,", "f(...)", "f(", "vfn(...)", "vfv(...)", "vg(...)", "go vfn(...)", "defer vfn(...)", "{1:}", "{:1}", "[,]", "[1,]", "a[]", "a[:]", "vl[:]", "vl[::]",
               "for { }", "for ;; { break }", "for in x { }", "for a, b, c in x { }", "switch { }", "switch 1 { case: }", "switch 1 { default: default: }", "if { }", "else { }", "try { } catch", "try { }", "throw", "module { }",
